@@ -46,7 +46,8 @@ ASSUMPTIONS = [
     "after expand_dims every later harvest sweeps the new dimension",
 ]
 
-A_VALS = [1, 2, 3, 2.5]              # an int coordinate that later turns float
+# (an int coordinate that later turns float; two labels one bit apart)
+A_VALS = [1, 2, 3, 2.5, 2.5000000000000004]
 B_VALS = ["p", "qq", "rrr"]       # growing lengths on purpose
 C_VALS = [0.5, 1.5, 2.5]
 UNIVERSE = {"a": A_VALS, "b": B_VALS, "c": C_VALS}
@@ -328,7 +329,8 @@ def _run_case(x, xr, case, nvars, c0, engine, stats, tainted):
                         # and changes it in place: what was harvested is not
                         # affected
                         tgt = ds if o == "add_ds" else actor.runner.last_ds
-                        for nm_ in list(tgt.data_vars):
+                        for nm_ in (list(tgt.data_vars) if tgt is not None
+                                    else ()):
                             arr_ = tgt[nm_].values
                             if arr_.flags.writeable and arr_.dtype.kind == "f":
                                 arr_[...] = -777.25
